@@ -1,2 +1,209 @@
-(* Proofs/RegionsProofs.v *)
+(* Proofs/RegionsProofs.v — the event order, the sort, the key sets. *)
+From Coq Require Import Sorting.Permutation Sorting.Sorted.
 From Bio Require Import Base.
+From Bio.Model Require Import Regions.
+From Bio.Spec Require Import RegionsSpec.
+Open Scope Z_scope.
+
+(* ---------------- event_less is a strict total order ---------------- *)
+
+Ltac ev_crush :=
+  unfold ev_le, event_less; cbn [e_idx e_pos e_start];
+  repeat match goal with
+  | |- context [Z.eqb ?a ?b] => destruct (Z.eqb_spec a b); cbn [negb]
+  | |- context [Z.ltb ?a ?b] => destruct (Z.ltb_spec a b)
+  | |- context [Nat.ltb ?a ?b] => destruct (Nat.ltb_spec a b)
+  | s : bool |- _ => destruct s; cbn [Bool.eqb negb]
+  end; intros; subst; try congruence; try lia.
+
+Lemma event_less_irrefl a : event_less a a = false.
+Proof. destruct a as [ia pa sa]. ev_crush. Qed.
+
+Lemma event_less_asym a b : event_less a b = true -> event_less b a = false.
+Proof. destruct a as [ia pa sa], b as [ib pb sb]. ev_crush. Qed.
+
+Lemma event_less_total a b : event_less a b = false -> event_less b a = false -> a = b.
+Proof.
+  destruct a as [ia pa sa], b as [ib pb sb]. ev_crush.
+  all: f_equal; lia.
+Qed.
+
+Lemma event_less_trans a b c :
+  event_less a b = true -> event_less b c = true -> event_less a c = true.
+Proof. destruct a as [ia pa sa], b as [ib pb sb], c as [ic pc sc]. ev_crush. Qed.
+
+Lemma ev_le_trans a b c : ev_le a b -> ev_le b c -> ev_le a c.
+Proof. destruct a as [ia pa sa], b as [ib pb sb], c as [ic pc sc]. ev_crush. Qed.
+
+Lemma ev_le_pos a b : ev_le a b -> e_pos a <= e_pos b.
+Proof. destruct a as [ia pa sa], b as [ib pb sb]. ev_crush. Qed.
+
+(* ---------------- the insertion sort ---------------- *)
+
+Lemma insert_event_perm e l : Permutation (insert_event e l) (e :: l).
+Proof.
+  induction l as [|x r IH]; cbn; [reflexivity|].
+  destruct (event_less e x); [reflexivity|].
+  rewrite IH. apply perm_swap.
+Qed.
+
+Lemma sort_events_perm l : Permutation (sort_events l) l.
+Proof.
+  induction l as [|e r IH]; cbn; [reflexivity|].
+  rewrite insert_event_perm. now constructor.
+Qed.
+
+Lemma insert_event_sorted e l : sorted_events l -> sorted_events (insert_event e l).
+Proof.
+  unfold sorted_events. induction l as [|x r IH]; cbn; intros H.
+  - repeat constructor.
+  - inversion H as [|? ? Hr Hx]; subst.
+    destruct (event_less e x) eqn:E.
+    + constructor; [exact H|]. constructor.
+      * unfold ev_le. now apply event_less_asym.
+      * rewrite Forall_forall in *. intros y Hy.
+        apply ev_le_trans with x; [|now apply Hx].
+        unfold ev_le. now apply event_less_asym.
+    + constructor; [now apply IH|].
+      rewrite Forall_forall in *. intros y Hy.
+      apply (Permutation_in _ (insert_event_perm e r)) in Hy.
+      destruct Hy as [<-|Hy]; [exact E|now apply Hx].
+Qed.
+
+Lemma sort_events_sorted l : sorted_events (sort_events l).
+Proof.
+  induction l as [|e r IH]; cbn; [constructor|]. now apply insert_event_sorted.
+Qed.
+
+(* two lists that satisfy sort.Slice's contract for the same elements are equal *)
+Lemma sorted_perm_unique l1 : forall l2,
+  sorted_events l1 -> sorted_events l2 -> Permutation l1 l2 -> l1 = l2.
+Proof.
+  unfold sorted_events.
+  induction l1 as [|a t1 IH]; intros l2 H1 H2 P.
+  - apply Permutation_nil in P. now subst.
+  - destruct l2 as [|b t2].
+    + apply Permutation_sym, Permutation_nil in P. discriminate.
+    + inversion H1 as [|? ? Ht1 Ha]; inversion H2 as [|? ? Ht2 Hb]; subst.
+      assert (a = b) as ->.
+      { assert (Ia : In a (b :: t2)) by (apply (Permutation_in _ P); now left).
+        assert (Ib : In b (a :: t1)) by (apply (Permutation_in _ (Permutation_sym P)); now left).
+        rewrite Forall_forall in Ha, Hb.
+        destruct Ia as [->|Ia]; [reflexivity|].
+        destruct Ib as [->|Ib]; [reflexivity|].
+        apply event_less_total; [apply (Hb _ Ia)|apply (Ha _ Ib)]. }
+      f_equal. apply IH; auto. now apply Permutation_cons_inv in P.
+Qed.
+
+(* sort.Slice is modelled soundly: whatever (unstable) algorithm it runs, its result
+   is the insertion sort's *)
+Lemma sort_events_unique l l' :
+  Permutation l' l -> sorted_events l' -> l' = sort_events l.
+Proof.
+  intros P S. apply sorted_perm_unique; [exact S|apply sort_events_sorted|].
+  rewrite P. symmetry. apply sort_events_perm.
+Qed.
+
+(* ---------------- generic list facts ---------------- *)
+
+Lemma filter_perm {A} (f : A -> bool) l l' :
+  Permutation l l' -> Permutation (filter f l) (filter f l').
+Proof.
+  induction 1; cbn.
+  - constructor.
+  - destruct (f x); [now constructor|assumption].
+  - destruct (f x), (f y); try reflexivity; try (now constructor).
+  - etransitivity; eassumption.
+Qed.
+
+Lemma filter_sorted {A} (R : A -> A -> Prop) (f : A -> bool) l :
+  StronglySorted R l -> StronglySorted R (filter f l).
+Proof.
+  induction 1 as [|a l Hl IH Ha]; cbn; [constructor|].
+  destruct (f a); [|exact IH].
+  constructor; [exact IH|].
+  rewrite Forall_forall in *. intros y Hy. apply filter_In in Hy. now apply Ha.
+Qed.
+
+Lemma filter_comm {A} (f g : A -> bool) l :
+  filter f (filter g l) = filter g (filter f l).
+Proof.
+  induction l as [|a l IH]; cbn; [reflexivity|].
+  destruct (g a) eqn:G, (f a) eqn:F; cbn; rewrite ?G, ?F, IH; reflexivity.
+Qed.
+
+Lemma filter_none {A} (f : A -> bool) l :
+  Forall (fun a => f a = false) l -> filter f l = [].
+Proof.
+  induction 1 as [|a l Ha _ IH]; cbn; [reflexivity|]. now rewrite Ha.
+Qed.
+
+(* ---------------- the key sets ---------------- *)
+
+Lemma set_add_In k l z : In z (set_add k l) <-> z = k \/ In z l.
+Proof.
+  induction l as [|y r IH]; cbn [set_add In].
+  - intuition.
+  - destruct (Nat.ltb_spec k y); cbn [In]; [intuition|].
+    destruct (Nat.eqb_spec k y); cbn [In].
+    + subst. intuition.
+    + rewrite IH. intuition.
+Qed.
+
+Lemma set_add_asc k l : asc l -> asc (set_add k l).
+Proof.
+  unfold asc. induction 1 as [|y r Hr IH Hy]; cbn [set_add].
+  - repeat constructor.
+  - destruct (Nat.ltb_spec k y).
+    + constructor; [now constructor|]. constructor; [exact H|].
+      rewrite Forall_forall in *. intros z Hz. specialize (Hy _ Hz). lia.
+    + destruct (Nat.eqb_spec k y); [now constructor|].
+      constructor; [exact IH|].
+      rewrite Forall_forall in *. intros z Hz. apply set_add_In in Hz.
+      destruct Hz as [->|Hz]; [lia|now apply Hy].
+Qed.
+
+Lemma set_remove_In k l z : In z (set_remove k l) <-> In z l /\ z <> k.
+Proof.
+  unfold set_remove. rewrite filter_In. destruct (Nat.eqb_spec z k); cbn; intuition congruence.
+Qed.
+
+Lemma set_remove_asc k l : asc l -> asc (set_remove k l).
+Proof. apply filter_sorted. Qed.
+
+Lemma step_set_asc idxs e : asc idxs -> asc (step_set idxs e).
+Proof. unfold step_set. destruct (e_start e); [apply set_add_asc|apply set_remove_asc]. Qed.
+
+Lemma apply_events_asc evs : forall idxs, asc idxs -> asc (apply_events evs idxs).
+Proof.
+  unfold apply_events. induction evs as [|e r IH]; cbn; intros idxs H; [exact H|].
+  apply IH. now apply step_set_asc.
+Qed.
+
+(* ascending lists are determined by their members *)
+Lemma asc_ext l1 : forall l2, asc l1 -> asc l2 -> (forall z, In z l1 <-> In z l2) -> l1 = l2.
+Proof.
+  unfold asc. induction l1 as [|a t1 IH]; intros l2 H1 H2 E.
+  - destruct l2 as [|b t2]; [reflexivity|]. exfalso. apply (E b). now left.
+  - destruct l2 as [|b t2]; [exfalso; apply (E a); now left|].
+    inversion H1 as [|? ? Ht1 Ha]; inversion H2 as [|? ? Ht2 Hb]; subst.
+    rewrite Forall_forall in Ha, Hb.
+    assert (a = b) as ->.
+    { assert (Ia : In a (b :: t2)) by (apply E; now left).
+      assert (Ib : In b (a :: t1)) by (apply E; now left).
+      destruct Ia as [->|Ia]; [reflexivity|].
+      destruct Ib as [->|Ib]; [reflexivity|].
+      specialize (Ha _ Ib). specialize (Hb _ Ia). lia. }
+    f_equal. apply IH; auto.
+    intros z. split; intros Hz.
+    + assert (In z (b :: t2)) as [<-|?] by (apply E; now right); [|assumption].
+      specialize (Ha _ Hz). lia.
+    + assert (In z (b :: t1)) as [<-|?] by (apply E; now right); [|assumption].
+      specialize (Hb _ Hz). lia.
+Qed.
+
+Lemma seq_asc n : forall a, asc (seq a n).
+Proof.
+  unfold asc. induction n as [|n IH]; intros a; cbn; constructor; [apply IH|].
+  rewrite Forall_forall. intros z Hz. apply in_seq in Hz. lia.
+Qed.
